@@ -374,6 +374,14 @@ def assignments_to(fnode, name):
                 if isinstance(t, ast.Name) and t.id == name:
                     out.append((n, n.value))
                 elif isinstance(t, (ast.Tuple, ast.List)):
+                    if isinstance(n.value, (ast.Tuple, ast.List)) and len(n.value.elts) == len(t.elts) \
+                            and not any(isinstance(x, ast.Starred) for x in list(t.elts) + list(n.value.elts)):
+                        for te, ve in zip(t.elts, n.value.elts):
+                            if isinstance(te, ast.Name) and te.id == name:
+                                out.append((n, ve))
+                            elif any(isinstance(e, ast.Name) and e.id == name for e in ast.walk(te)):
+                                out.append((n, None))
+                        continue
                     for e in ast.walk(t):
                         if isinstance(e, ast.Name) and e.id == name:
                             out.append((n, None))
@@ -616,3 +624,213 @@ def stmt_of(node):
     while n is not None and not isinstance(n, ast.stmt):
         n = parent(n)
     return n
+
+
+# --------------------------------------------------------------------------
+# canonical expressions: local temporaries inlined, loop-bound element variables written as indexed accesses
+#   for i, y in enumerate(S)      y  ->  S[i]
+#   for a, b in zip(A, B)         a  ->  A[§n], b -> B[§n]      (§n: synthetic index of that loop)
+#   for k, v in D.items()         v  ->  D[k]        (k may be a tuple target: D[i, j])
+#   t = <pure expression>         t  ->  <pure expression>      (single definition in the function)
+# Rules compare canonical texts, so introducing/inlining a temporary or switching between these loop idioms is not
+# a difference.
+
+_IMPURE_CALLS = {"pop", "popitem", "popleft", "append", "add", "extend", "update", "next", "send", "_gen_nt", "get_new_state"}
+
+
+def _pure(e):
+    for n in ast.walk(e):
+        if isinstance(n, ast.Call):
+            nm = call_name(n)
+            if nm in _IMPURE_CALLS or (nm or "").startswith("add_") or (nm or "").startswith("set_"):
+                return False
+            # constructor / allocation calls are not aliases of one value
+            if isinstance(n.func, ast.Name) and (n.func.id[:1].isupper() or n.func.id in ("set", "list", "dict", "defaultdict")) and not n.args:
+                return False
+        if isinstance(n, (ast.Yield, ast.YieldFrom, ast.Await, ast.NamedExpr, ast.Lambda, ast.ListComp, ast.SetComp, ast.DictComp, ast.GeneratorExp)):
+            if isinstance(n, (ast.GeneratorExp, ast.ListComp)):
+                continue
+            return False
+    return True
+
+
+_VALUE_BUILTINS = {"all", "any", "len", "min", "max", "sum", "abs", "isinstance", "sorted", "bool", "int", "float", "str", "range", "enumerate", "zip"}
+
+
+def _inlinable(fnode, v):
+    """may the single definition `t = v` be substituted for `t`?  Value-like expressions only: attribute/subscript
+    chains, arithmetic, comparisons, tuples, value-returning builtins and calls of local helper functions.  Results of
+    method calls and freshly allocated containers keep their name (they denote an object, not a formula)."""
+    if not _pure(v):
+        return False
+    if isinstance(v, ast.Call):
+        fn = v.func
+        if isinstance(fn, ast.Name):
+            if fn.id in _VALUE_BUILTINS:
+                return True
+            # nested helper of this function
+            return any(isinstance(n, (ast.FunctionDef, ast.Lambda)) and getattr(n, "name", None) == fn.id for n in ast.walk(fnode)) or \
+                any(isinstance(n, ast.Assign) and isinstance(n.value, ast.Lambda) and any(isinstance(t, ast.Name) and t.id == fn.id for t in n.targets)
+                    for n in ast.walk(fnode))
+        return False
+    if isinstance(v, (ast.List, ast.Set, ast.Dict, ast.ListComp, ast.SetComp, ast.DictComp, ast.GeneratorExp)):
+        return False
+    return True
+
+
+def _loop_binding(fnode, name, at):
+    """(kind, loop) if `name` is bound as a target of a loop (or comprehension generator) enclosing `at`."""
+    for a in ancestors(at):
+        if isinstance(a, (ast.For, ast.AsyncFor)) and any(isinstance(t, ast.Name) and t.id == name for t in ast.walk(a.target)):
+            return a
+        if isinstance(a, (ast.ListComp, ast.SetComp, ast.GeneratorExp, ast.DictComp)):
+            for g in a.generators:
+                if any(isinstance(t, ast.Name) and t.id == name for t in ast.walk(g.target)):
+                    return g
+        if isinstance(a, (ast.FunctionDef, ast.AsyncFunctionDef)):
+            break
+    return None
+
+
+def _strip_list(e):
+    while isinstance(e, ast.Call) and isinstance(e.func, ast.Name) and e.func.id in ("list", "tuple", "iter") and len(e.args) == 1 and not e.keywords:
+        e = e.args[0]
+    return e
+
+
+def _elem_expr(loop, name):
+    """indexed form of a loop-bound element variable, or None"""
+    it = _strip_list(loop.iter)
+    tg = loop.target
+    line = getattr(loop, "lineno", None) or getattr(loop.iter, "lineno", 0)
+    if isinstance(it, ast.Call) and isinstance(it.func, ast.Name) and it.func.id == "enumerate" and len(it.args) == 1 \
+            and isinstance(tg, ast.Tuple) and len(tg.elts) == 2 and isinstance(tg.elts[0], ast.Name):
+        idx, el = tg.elts
+        if isinstance(el, ast.Name) and el.id == name:
+            return ast.Subscript(value=it.args[0], slice=ast.Name(id=idx.id, ctx=ast.Load()), ctx=ast.Load())
+        return None
+    if isinstance(it, ast.Call) and isinstance(it.func, ast.Name) and it.func.id == "zip" and isinstance(tg, ast.Tuple) and len(tg.elts) == len(it.args):
+        for t, src in zip(tg.elts, it.args):
+            if isinstance(t, ast.Name) and t.id == name:
+                return ast.Subscript(value=src, slice=ast.Name(id=f"zipidx_{line}", ctx=ast.Load()), ctx=ast.Load())
+        return None
+    if isinstance(it, ast.Call) and isinstance(it.func, ast.Attribute) and it.func.attr == "items" and not it.args \
+            and isinstance(tg, ast.Tuple) and len(tg.elts) == 2:
+        k, v = tg.elts
+        if isinstance(v, ast.Name) and v.id == name:
+            return ast.Subscript(value=it.func.value, slice=k, ctx=ast.Load())
+    return None
+
+
+def canon_ast(fnode, e, at=None, depth=0, _seen=None):
+    """canonical copy of expression `e` (see above). `at`: the node whose position decides which loops enclose."""
+    at = at if at is not None else e
+    seen = _seen or set()
+
+    class T(ast.NodeTransformer):
+        def visit_Name(self, n):
+            if not isinstance(n.ctx, ast.Load) or depth > 6 or n.id in seen or n.id.startswith("zipidx_"):
+                return n
+            lp = _loop_binding(fnode, n.id, at)
+            if lp is not None:
+                el = _elem_expr(lp, n.id)
+                if el is not None:
+                    return canon_ast(fnode, ast.parse(ast.unparse(el), mode="eval").body, lp if isinstance(lp, ast.For) else at, depth + 1, seen | {n.id})
+                return n
+            v = single_def(fnode, n.id)
+            if v is not None and _inlinable(fnode, v) and not (isinstance(v, ast.Name) and v.id == n.id):
+                st = next((s for s, vv in assignments_to(fnode, n.id) if vv is v), None)
+                return canon_ast(fnode, ast.parse(ast.unparse(v), mode="eval").body, st if st is not None else at, depth + 1, seen | {n.id})
+            return n
+
+    tree = ast.parse(ast.unparse(e), mode="eval").body
+    # positions of the re-parsed tree are meaningless: loop look-ups use `at`
+    out = T().visit(tree)
+    return out
+
+
+def cnorm(fnode, e, at=None):
+    """canonical text of an expression"""
+    return norm(canon_ast(fnode, e, at))
+
+
+def cfact(fnode, ft):
+    """canonical text of a fact with the polarity folded into comparison operators"""
+    t = canon_ast(fnode, ft.test, ft.origin if not isinstance(ft.origin, (ast.If, ast.While, ast.Assert)) else ft.test)
+    pol = ft.pol
+    while isinstance(t, ast.UnaryOp) and isinstance(t.op, ast.Not):
+        t, pol = t.operand, not pol
+    if isinstance(t, ast.Compare) and len(t.ops) == 1:
+        op = type(t.ops[0])
+        if not pol and op in _NEG:
+            op, pol = _NEG[op], True
+        l, r = norm(t.left), norm(t.comparators[0])
+        if op in (ast.Eq, ast.NotEq) and r < l:
+            l, r = r, l
+        sym = {ast.Eq: "==", ast.NotEq: "!=", ast.Lt: "<", ast.LtE: "<=", ast.Gt: ">", ast.GtE: ">=", ast.In: "in", ast.NotIn: "not in",
+               ast.Is: "is", ast.IsNot: "is not"}[op]
+        if op is ast.Gt:
+            l, r, sym = r, l, "<"
+        if op is ast.GtE:
+            l, r, sym = r, l, "<="
+        return ("" if pol else "not ") + f"{l} {sym} {r}"
+    return ("" if pol else "not ") + norm(t)
+
+
+def cfacts(fnode, node):
+    """canonical, expanded facts that hold at node: set of strings"""
+    out = set()
+    for ft in guard_facts(node):
+        t = canon_ast(fnode, ft.test, ft.origin if isinstance(ft.origin, ast.stmt) else node)
+        for sub in expand_facts([Fact(t, ft.pol, ft.origin, ft.kind)]):
+            out.add(cfact_text(sub))
+    return out
+
+
+def cfact_text(ft):
+    t, pol = ft.test, ft.pol
+    while isinstance(t, ast.UnaryOp) and isinstance(t.op, ast.Not):
+        t, pol = t.operand, not pol
+    if isinstance(t, ast.Compare) and len(t.ops) == 1:
+        op = type(t.ops[0])
+        if not pol and op in _NEG:
+            op, pol = _NEG[op], True
+        l, r = norm(t.left), norm(t.comparators[0])
+        if op in (ast.Eq, ast.NotEq) and r < l:
+            l, r = r, l
+        if op is ast.Gt:
+            l, r, op = r, l, ast.Lt
+        if op is ast.GtE:
+            l, r, op = r, l, ast.LtE
+        sym = {ast.Eq: "==", ast.NotEq: "!=", ast.Lt: "<", ast.LtE: "<=", ast.In: "in", ast.NotIn: "not in", ast.Is: "is", ast.IsNot: "is not"}[op]
+        return ("" if pol else "not ") + f"{l} {sym} {r}"
+    return ("" if pol else "not ") + norm(t)
+
+
+def cfactors(fnode, e, at=None):
+    """factor multiset of the canonical expression"""
+    return factors(canon_ast(fnode, e, at))
+
+
+def citer(fnode, loop):
+    """canonical text of what a loop iterates (list()/tuple() wrappers stripped, also through a single-definition name)"""
+    it = _strip_list(loop.iter)
+    if isinstance(it, ast.Name):
+        v = single_def(fnode, it.id)
+        if v is not None and _strip_list(v) is not v:
+            it = _strip_list(v)
+    return norm(canon_ast(fnode, it, loop))
+
+
+def nested_funcs(P, f):
+    return [g for g in P.funcs.values() if g.outer is f]
+
+
+def cguard_facts(fnode, node):
+    """guard facts whose tests are canonical expressions (temporaries inlined, loop idioms normalised)"""
+    out = []
+    for ft in guard_facts(node):
+        origin = ft.origin if isinstance(ft.origin, ast.stmt) else node
+        t = canon_ast(fnode, ft.test, origin)
+        out.extend(expand_facts([Fact(t, ft.pol, ft.origin, ft.kind)]))
+    return out
